@@ -14,4 +14,16 @@ CLAIMS = {
     },
 }
 
+CLAIMS["C14"] = {
+        "category": "other",
+        "technique": "typestate of evaluator work lists over enumerated paths; structural/affine rules on neighbour construction; formula-shape and write-once path rules",
+        "text": "Decides on every control-flow path of the worst-case and gradient evaluators that (1) the work lists filled per batch are "
+                "emptied after their last use (the stability clause: no re-processing, cost vector length fixed, for any number of batches), "
+                "(2) neighbours are fresh copies displaced at the axis index by +/- the tolerance of the same-index parameter, one per "
+                "(axis, sign), (3) the extra objective is sum |f0(x)-f0(neighbour)| written once into costs and signed costs before the marker, "
+                "(4) the gradient is the forward quotient with the displacement step 1e-4 and n extra evaluations. The tests run one or two "
+                "batches of one problem; the path rules cover every batch sequence and dimension.",
+        "note": "Trusts: list.copy/list() make independent lists; each design object is evaluated in one batch only; evaluate_scalar is outside the claim.",
+    }
+
 NOT_APPLICABLE = {}
